@@ -175,10 +175,13 @@ func TestVFC10Machine(t *testing.T) {
 		host := func() string { return rapid.SampledFrom(v.hosts).Draw(t, "host") }
 		anyIP := func() string { return rapid.SampledFrom(v.ips).Draw(t, "ip") }
 
+		// some clients ask for a lease time of their own
+		ask := func() int { return rapid.SampledFrom([]int{0, 0, 0, 0, 60, 7 * 86400}).Draw(t, "ask_lease") }
 		dora := func(m, h string) {
-			out := w.do(vfC10Op{Kind: "discover", MAC: m, Host: h})
+			a := ask()
+			out := w.do(vfC10Op{Kind: "discover", MAC: m, Host: h, AskLease: a})
 			if ip, ok := strings.CutPrefix(out, "offer:"); ok {
-				w.do(vfC10Op{Kind: "req_selecting", MAC: m, IP: ip, Host: h})
+				w.do(vfC10Op{Kind: "req_selecting", MAC: m, IP: ip, Host: h, AskLease: a})
 			}
 		}
 
@@ -255,11 +258,11 @@ func TestVFC10Machine(t *testing.T) {
 			},
 			"req_initreboot": func(t *rapid.T) {
 				m := mac()
-				w.do(vfC10Op{Kind: "req_initreboot", MAC: m, IP: vfC10OwnAddr(t, w, v, m, false), Host: host()})
+				w.do(vfC10Op{Kind: "req_initreboot", MAC: m, IP: vfC10OwnAddr(t, w, v, m, false), Host: host(), AskLease: ask()})
 			},
 			"req_renew": func(t *rapid.T) {
 				m := mac()
-				w.do(vfC10Op{Kind: "req_renew", MAC: m, IP: vfC10OwnAddr(t, w, v, m, false), Host: host()})
+				w.do(vfC10Op{Kind: "req_renew", MAC: m, IP: vfC10OwnAddr(t, w, v, m, false), Host: host(), AskLease: ask()})
 			},
 			"decline": func(t *rapid.T) {
 				m := mac()
